@@ -104,10 +104,20 @@ theorem lookup_perm {l₁ l₂ : List (String × Nat)} (h : l₁.Perm l₂) (hn 
   | trans p₁ _ ih₁ ih₂ =>
     rw [ih₁ hn, ih₂ ((p₁.map _).nodup_iff.mp hn)]
 
+/-- batch fees: the totals accumulated per token (fee sum, amount sum, tx count) do not depend on the order in which the
+pool entries are visited / the map is filled -/
+theorem tokenTotals_perm {l₁ l₂ : List (String × Nat × Nat)} (h : l₁.Perm l₂) (t : String) :
+    tokenTotals l₁ t = tokenTotals l₂ t := by
+  unfold tokenTotals
+  have hf := h.filter (fun e => e.1 == t)
+  simp only [Prod.mk.injEq]
+  exact ⟨(hf.map _).sum_nat, (hf.map _).sum_nat, hf.length_eq⟩
+
 -- non-vacuity
 example : sites.length ≥ 20 := by decide
 example : absSum [3, -4, 0] = 7 := by decide
 example : powerDiffNumerator [("a", 5), ("b", 7)] [("b", 2), ("c", 4)] = 5 + 5 + 4 := by decide
+example : tokenTotals [("b", 2, 10), ("a", 1, 5), ("b", 3, 7)] "b" = (5, 17, 2) := by decide
 example : tally [(1, 0, 0, 0, 1), (0, 2, 0, 0, 2)] = (1, 2, 0, 0, 3) := by decide
 
 end FxVerif.Props.C17
